@@ -147,6 +147,7 @@ func vf35Events() []vf35Event {
 			// the map differs from the one the processor cached at start => placement update path
 			k := vf35Key(c.rng)
 			c.ch.lock(func() { c.ch.nodes = append(c.ch.nodes, vf35NetmapNode(k, len(c.ch.nodes))) })
+			c.w.NodeKeys = append(c.w.NodeKeys, k) // later generators of a history look node keys up here
 			return notifFS(c, cs(c).netmap, "NewEpoch", vf35BI(int64(c.ch.epoch)+1))
 		}},
 		{name: "notification balance.Lock", covers: []string{"notif/balance/Lock"}, deliver: func(c *vf35Case) func() {
